@@ -89,8 +89,13 @@ def execute(prog, kinds, replace_constants):
     if replace_constants:
         vals = [np.array(v.data) if is_tensor(v) and v.constant else v for v in vals]
     recs = []
+    replaced_views = [v for v in vals if replace_constants and isinstance(v, np.ndarray)]
     for form, ops, c in prog:
         args = [vals[i] for i in ops]
+        if form in ("addout", "iadd", "set0") and replace_constants:
+            tgt_ = args[2] if form == "addout" else args[0]
+            if any(np.shares_memory(data_of(tgt_), rv) for rv in replaced_views):
+                raise Skip("in-place statement on memory seen through an array-replaced constant view")
         if form == "addout":
             xa, ya, tgt = args
             if not is_tensor(tgt):
@@ -179,7 +184,11 @@ def execute(prog, kinds, replace_constants):
         if raised is not None:
             return vals, recs, "raised"
         if replace_constants and is_tensor(r) and r.constant:
-            r = np.array(r.data)
+            # (a constant *view* is replaced by the NumPy view of the same memory: a later in-place statement on that memory is
+            # visible through the view tensor but -- MyGrad swaps the target's array -- not through a plain array, so such
+            # programs have no array-replaced counterpart; thorough-tier false alarm, see DESIGN 9.4)
+            r = r.data if r.base is not None else np.array(r.data)
+            replaced_views.append(r)
         vals.append(r)
     return vals, recs, "ok"
 
